@@ -159,8 +159,13 @@ def rngModel {α : Type} [Add α] [Sub α] [Mul α] [Div α] [Neg α] [OfScienti
     (p : Params α) (loc : Location α) (s e : Int) : List (Int × Except Panic DayTimes) :=
   (rangeDates s e).map fun rd => (rd, prayerTimesDt p loc rd none)
 
-/-- **the range API returns one entry per calendar date from start to end inclusive - none when the
-    end precedes the start - each identical to the single-date API for that date** -/
+/-- **the range model has one entry per calendar date from start to end inclusive - none when the end
+    precedes the start - each the single-date result for that date.**  `rngModel` (above) mirrors the
+    body of `prayer_times_dt_rng`: a loop over `start.iter_days().take(num_days)` inserting
+    `prayer_times_dt(params, location, date, None)`; clause 2 is therefore true of the model by
+    construction, and that the REAL function is that loop with nothing carried from one day to the
+    next is what the falsifier's range sweeps compare (seeds C15c, C14d, C14e were such carry-overs).
+    What the theorem adds is the date set: exactly start..=end, once each, nothing for an empty range. -/
 theorem rng_is_per_day {α : Type} [Add α] [Sub α] [Mul α] [Div α] [Neg α] [OfScientific α] [Sc α]
     (p : Params α) (loc : Location α) (s e : Int) :
     ((rngModel p loc s e).map Prod.fst = rangeDates s e) ∧
